@@ -456,16 +456,20 @@ def _compact_rule(ctx, facts, fid):
                       % (ok_inc, ok_init and ok_scope, ok_tr))
 
 
-def _affine(e, var):
-    """(a, b) with e == a*var + b for integer-affine expressions of the local `var`, else None"""
+def _affine(e, var, R=None, _d=0):
+    """(a, b) with e == a*var + b for integer-affine expressions of the local `var`, else None. R: a Resolver — immutable locals
+    whose definition is still valid at the use (`let round_start = (i - 1) as f64` hoisted out of the inner loop) are looked through"""
     e = nf.strip_casts(e)
     k = e["k"]
     if k == "Lit" and e.get("lk") == "int":
         return (0, int(e["v"]))
     if k == "Path" and "local" in e["res"] and e["res"]["name"] == var:
         return (1, 0)
+    if k == "Path" and "local" in e["res"] and R is not None and _d < 6:
+        d = R.lookup(e["res"]["local"], e)
+        return _affine(d, var, R, _d + 1) if d is not None else None
     if k == "Binary" and e["op"] in ("+", "-"):
-        l, r = _affine(e["l"], var), _affine(e["r"], var)
+        l, r = _affine(e["l"], var, R, _d), _affine(e["r"], var, R, _d)
         if l is None or r is None:
             return None
         sg = 1 if e["op"] == "+" else -1
@@ -501,7 +505,7 @@ def _band_rule(ctx, facts, fid):
         if e["k"] == "Binary" and e["op"] == "*":
             for (x, y) in ((e["l"], e["r"]), (e["r"], e["l"])):
                 for cand in muts:
-                    a_ = _affine(x, cand)
+                    a_ = _affine(x, cand, R)
                     if a_ is not None and a_[0] != 0 and nf.nf(y, True, res=R) in ("(1.0 / weight)", "winv", "(1.0 / weight_t.to_f64().unwrap())", "(1.0 / weight_a.to_f64().unwrap())") or \
                             (a_ is not None and a_[0] != 0 and not any(p_["k"] == "Path" and p_["res"].get("name") == cand for p_ in hirq.walk(y))):
                         cname, band_node, band, winv_nf = cand, d, a_, nf.nf(y, True)
@@ -559,8 +563,8 @@ def _band_rule(ctx, facts, fid):
                             lhs_aff = (0, 1)
                         elif l_["k"] == "Binary" and l_["op"] == "*":
                             for (x, y) in ((l_["l"], l_["r"]), (l_["r"], l_["l"])):
-                                if nf.nf(y, True) == winv_nf and _affine(x, cname) is not None:
-                                    lhs_aff = _affine(x, cname)
+                                if nf.nf(y, True) == winv_nf and _affine(x, cname, R) is not None:
+                                    lhs_aff = _affine(x, cname, R)
                         break
             if lhs_aff is not None:
                 ca, cb = lhs_aff
